@@ -102,14 +102,14 @@ def convert_board_log(data: dict) -> BoardLog:
     bid_history: Optional[List[Bid]] = [Bid.str_to_bid(bid) for bid in data[
         'bid_history']] if 'bid_history' in data else None
     play_history: Optional[List[TrickHistory]] = [
-        TrickHistory(leader=b['leader'],
+        TrickHistory(leader=Player[b['leader']],
                      cards=tuple([Card.str_to_card(x) for x in b['cards']])) for
         b in data['play_history']] if 'play_history' in data and data[
         'play_history'] is not None else None
     score_type: Optional[str] = data[
         'score_type'] if 'score_type' in data else None
-    scores: Optional[Dict[Pair, int]] = data[
-        'scores'] if 'scores' in data else None
+    scores: Optional[Dict[Pair, int]] = {Pair[p]: s for p, s in data[
+        'scores'].items()} if 'scores' in data else None
 
     return BoardLog(players=players,
                     hands=board_setting.hands,
